@@ -74,6 +74,29 @@ type res struct {
 	class    model.Class
 	hasValue bool
 	err      string
+	extra    bool // the error tree has a leaf that is not db.ErrAccessDenied (a refusal together with another failure)
+}
+
+// otherFailure reports whether err's tree (Unwrap() error and Unwrap() []error) has a leaf that is not
+// db.ErrAccessDenied.  It does not look at error texts.
+func otherFailure(err error) bool {
+	if err == nil {
+		return false
+	}
+	switch u := err.(type) {
+	case interface{ Unwrap() []error }:
+		for _, e := range u.Unwrap() {
+			if otherFailure(e) {
+				return true
+			}
+		}
+		return false
+	case interface{ Unwrap() error }:
+		if in := u.Unwrap(); in != nil {
+			return otherFailure(in)
+		}
+	}
+	return err != db.ErrAccessDenied
 }
 
 func apply(d *db.DB, c db.Caller, o Op) res {
@@ -109,7 +132,7 @@ func apply(d *db.DB, c db.Caller, o Op) res {
 		l, err = d.List(c)
 		has = l != nil
 	}
-	r := res{class: hx.Classify(err), hasValue: has}
+	r := res{class: hx.Classify(err), hasValue: has, extra: otherFailure(err)}
 	if err != nil {
 		r.err = err.Error()
 	}
@@ -734,7 +757,7 @@ func concScenarioF(progs [][]Op, failSync int) func() *sched.Harness {
 					case r.res.class == model.Denied:
 						// a refusal that also reports that its record could not be written is the failing request of
 						// the statement's second sentence (no value, no change), not a refusal that claims a record
-						need = !strings.Contains(r.res.err, "writing audit log")
+						need = !r.res.extra
 					case r.res.hasValue && (r.op.Kind == "get" || r.op.Kind == "getcond"):
 						need = true
 					case r.res.class == model.OK && (r.op.Kind == "put" || r.op.Kind == "delete" || r.op.Kind == "activate" || r.op.Kind == "delver"):
